@@ -185,8 +185,11 @@ func (it *Interp) Step(t []string, op string) string {
 		it.drop()
 		return ""
 	case "log.write":
-		if it.w == nil || it.closed {
+		if it.w == nil {
 			return "bad-op"
+		}
+		if it.closed {
+			return "closed" // the writer died with the cut
 		}
 		ts, n := vh.U(t[1]), int(vh.U(t[2]))
 		if n != len(t)-3 {
